@@ -77,9 +77,13 @@ def setup_env():
         )
         import shutil
 
-        for old in olds[:-2]:
+        for old in olds[:-3]:
             shutil.rmtree(old, ignore_errors=True)
         os.makedirs(cache, exist_ok=True)
+    try:
+        os.utime(cache, None)  # LRU: the tree in use stays the most recent
+    except OSError:
+        pass
     if "numba" in sys.modules and os.environ.get("NUMBA_CACHE_DIR") != cache:
         raise HarnessError("numba was imported before the cache directory was configured")
     os.environ["NUMBA_CACHE_DIR"] = cache
